@@ -242,3 +242,39 @@ func sortedKeysAny(m map[string]any) []string {
 	sort.Strings(k)
 	return k
 }
+
+// Nut10Secrets returns crafted secret strings that are (nearly) well-formed NUT-10 secrets: the structural mutations
+// of C06 applied INSIDE the secret's embedded JSON (tags with missing values, wrong arities, odd numbers, ...).
+func Nut10Secrets(pub string) []Mutant {
+	var out []Mutant
+	for _, kind := range []string{"P2PK", "HTLC"} {
+		data := pub
+		if kind == "HTLC" {
+			data = strings.Repeat("ab", 32)
+		}
+		tagSets := map[string]string{
+			"tag-name-only-locktime": `[["locktime"]]`, "tag-name-only-sigflag": `[["sigflag"]]`, "tag-name-only-n_sigs": `[["n_sigs"]]`,
+			"tag-name-only-pubkeys": `[["pubkeys"]]`, "tag-name-only-refund": `[["refund"]]`, "empty-tag": `[[]]`, "tags-null": `null`,
+			"tags-not-lists": `["locktime","1"]`, "six-tags": `[["a","1"],["b","1"],["c","1"],["d","1"],["e","1"],["f","1"]]`,
+			"locktime-not-a-number": `[["locktime","x"]]`, "locktime-negative": `[["locktime","-1"]]`, "locktime-huge": `[["locktime","99999999999999999999999"]]`,
+			"n_sigs-negative": `[["n_sigs","-1"]]`, "n_sigs-huge": `[["n_sigs","999999999999"]]`, "n_sigs-not-a-number": `[["n_sigs","x"]]`,
+			"pubkeys-non-hex": `[["n_sigs","1"],["pubkeys","zz"]]`, "pubkeys-empty-string": `[["n_sigs","1"],["pubkeys",""]]`,
+			"refund-non-hex": `[["locktime","1"],["refund","zz"]]`, "sigflag-unknown": `[["sigflag","SIG_NONE"]]`,
+			"tag-with-number-elements": `[["locktime",1]]`,
+		}
+		for _, name := range sortedKeys(tagSets) {
+			out = append(out, Mutant{Class: kind + ":" + name, Body: fmt.Sprintf(`["%s",{"nonce":"00","data":"%s","tags":%s}]`, kind, data, tagSets[name])})
+		}
+		out = append(out,
+			Mutant{Class: kind + ":no-payload", Body: fmt.Sprintf(`["%s"]`, kind)},
+			Mutant{Class: kind + ":payload-empty-object", Body: fmt.Sprintf(`["%s",{}]`, kind)},
+			Mutant{Class: kind + ":payload-null", Body: fmt.Sprintf(`["%s",null]`, kind)},
+			Mutant{Class: kind + ":payload-string", Body: fmt.Sprintf(`["%s","x"]`, kind)},
+			Mutant{Class: kind + ":data-empty", Body: fmt.Sprintf(`["%s",{"nonce":"00","data":"","tags":[]}]`, kind)},
+			Mutant{Class: kind + ":data-non-hex", Body: fmt.Sprintf(`["%s",{"nonce":"00","data":"zz","tags":[]}]`, kind)},
+			Mutant{Class: kind + ":three-elements", Body: fmt.Sprintf(`["%s",{"nonce":"00","data":"%s","tags":[]},1]`, kind, data)},
+		)
+	}
+	out = append(out, Mutant{Class: "kind-number", Body: `[1,{"nonce":"00","data":"00","tags":[]}]`}, Mutant{Class: "kind-unknown", Body: `["XYZ",{"nonce":"00","data":"00","tags":[["locktime"]]}]`})
+	return out
+}
